@@ -141,12 +141,15 @@ impl<'input, E> Iterator for Matcher<'input, '_, E> {
             self.text = remaining;
             self.consumed = end_offset;
 
+            // A zero-length match makes no progress: report it instead of
+            // yielding (or skipping) the same empty token forever.
+            if longest_match == 0 {
+                return Some(Err(ParseError::InvalidToken {
+                    location: start_offset,
+                }));
+            }
+
             if self.skip_vec[index] {
-                if longest_match == 0 {
-                    return Some(Err(ParseError::InvalidToken {
-                        location: start_offset,
-                    }));
-                }
                 continue;
             }
 
